@@ -89,6 +89,10 @@ def handle (op : String) (args : List String) (text : String) : String :=
   | "qtrace", [n] => withProg text fun p =>
       "/".intercalate ((quickTrace p n.toNat! QState.init).map fun s => s!"{s.state};{s.tape.show};{s.steps}")
   | "rec", [lim] => withProg text fun p => (quickTermOrRec p lim.toNat!).show
+  | "recpy", [lim] => withProg text fun p =>
+      match quickTermOrRec p lim.toNat! with
+      | .recur | .spinout => "true"
+      | _ => "false"
   | "tapeops", [ops] =>
       let (_, outs) := (parseOps ops.toList).foldl (fun (acc : Tape × List String) o =>
         let (t', k) := acc.1.step o.1 o.2.1 o.2.2
